@@ -15,7 +15,7 @@ abbrev Cfg := Nat × List Nat
 leaves the loop) -/
 inductive Reach (code : List FlatOp) : Nat → Cfg → Cfg → Prop
   | refl (a) : Reach code 0 a a
-  | cons {k pc stk op pc' stk' b} : pc ≠ retAddr → code[pc]? = some op →
+  | cons {k pc stk op pc' stk' b} : code[pc]? = some op →
       Model.FlatLower.step op pc stk = .cont pc' stk' →
       Reach code k (pc', stk') b → Reach code (k + 1) (pc, stk) b
 
@@ -25,15 +25,15 @@ theorem Reach.trans {code k1 k2 a b c} (h1 : Reach code k1 a b) (h2 : Reach code
     Reach code (k1 + k2) a c := by
   induction h1 with
   | refl a => simpa using h2
-  | cons hne hop hst _ ih => exact (Reach.cons hne hop hst (ih h2)).cast (by omega)
+  | cons hop hst _ ih => exact (Reach.cons hop hst (ih h2)).cast (by omega)
 
-theorem Reach.one {code pc stk op pc' stk'} (hne : pc ≠ retAddr) (hop : code[pc]? = some op)
+theorem Reach.one {code pc stk op pc' stk'} (hop : code[pc]? = some op)
     (hst : step op pc stk = .cont pc' stk') : Reach code 1 (pc, stk) (pc', stk') :=
-  Reach.cons hne hop hst (Reach.refl _)
+  Reach.cons hop hst (Reach.refl _)
 
 /-- a run of `k` steps followed by a trap -/
 def TrapsAt (code : List FlatOp) (a : Cfg) (kind : String) : Prop :=
-  ∃ k pc stk op, Reach code k a (pc, stk) ∧ pc ≠ retAddr ∧ code[pc]? = some op ∧ step op pc stk = .trap kind
+  ∃ k pc stk op, Reach code k a (pc, stk) ∧ code[pc]? = some op ∧ step op pc stk = .trap kind
 
 /-- the machine can make `k` steps from `a` -/
 def RunsFor (code : List FlatOp) (k : Nat) (a : Cfg) : Prop := ∃ b, Reach code k a b
@@ -44,12 +44,12 @@ theorem Reach.prefix {code j k a b} (h : Reach code k a b) (hj : j ≤ k) : Runs
   induction h generalizing j with
   | refl a => have : j = 0 := by omega
               subst this; exact .zero
-  | cons hne hop hst _ ih =>
+  | cons hop hst _ ih =>
     cases j with
     | zero => exact .zero
     | succ j =>
       obtain ⟨b', hb'⟩ := ih (Nat.le_of_succ_le_succ hj)
-      exact ⟨b', Reach.cons hne hop hst hb'⟩
+      exact ⟨b', Reach.cons hop hst hb'⟩
 
 theorem RunsFor.mono {code j k a} (h : RunsFor code k a) (hj : j ≤ k) : RunsFor code j a := by
   obtain ⟨b, hb⟩ := h; exact hb.prefix hj
@@ -58,16 +58,16 @@ theorem RunsFor.after {code j k a b} (h1 : Reach code k a b) (h2 : RunsFor code 
   obtain ⟨c, hc⟩ := h2; exact ⟨c, h1.trans hc⟩
 
 theorem TrapsAt.after {code k a b kind} (h1 : Reach code k a b) (h2 : TrapsAt code b kind) : TrapsAt code a kind := by
-  obtain ⟨k2, pc, stk, op, hr, hne, hop, hst⟩ := h2
-  exact ⟨k + k2, pc, stk, op, h1.trans hr, hne, hop, hst⟩
+  obtain ⟨k2, pc, stk, op, hr, hop, hst⟩ := h2
+  exact ⟨k + k2, pc, stk, op, h1.trans hr, hop, hst⟩
 
 theorem runFrom_reach {code k a b} (h : Reach code k a b) (n : Nat) :
     runFrom code (k + n) a.1 a.2 = runFrom code n b.1 b.2 := by
   induction h with
   | refl a => simp
-  | cons hne hop hst _ ih =>
+  | cons hop hst _ ih =>
     rw [Nat.add_right_comm]
-    simp only [runFrom, hne, if_false, hop, hst]
+    simp only [runFrom, hop, hst]
     exact ih
 
 theorem runFrom_runsFor {code k a} (h : RunsFor code k a) : runFrom code k a.1 a.2 = .error .exhausted := by
@@ -76,14 +76,16 @@ theorem runFrom_runsFor {code k a} (h : RunsFor code k a) : runFrom code k a.1 a
   simpa [runFrom] using this
 
 theorem runFrom_traps {code a kind} (h : TrapsAt code a kind) : ∃ k, ∀ n, runFrom code (k + 1 + n) a.1 a.2 = .error (.trap kind) := by
-  obtain ⟨k, pc, stk, op, hr, hne, hop, hst⟩ := h
+  obtain ⟨k, pc, stk, op, hr, hop, hst⟩ := h
   refine ⟨k, fun n => ?_⟩
   rw [show k + 1 + n = k + (n + 1) by omega, runFrom_reach hr (n + 1)]
-  simp only [runFrom, hne, if_false, hop, hst]
+  simp only [runFrom, hop, hst]
 
-theorem runFrom_exit {code k a stk} (h : Reach code k a (retAddr, stk)) (n : Nat) :
+theorem runFrom_exit {code k a pc stk} (h : Reach code k a (pc, stk)) (hpc : code.length ≤ pc) (n : Nat) :
     runFrom code (k + (n + 1)) a.1 a.2 = .ok stk := by
-  rw [runFrom_reach h (n + 1)]; simp [runFrom]
+  rw [runFrom_reach h (n + 1)]
+  have : code[pc]? = none := by simpa using hpc
+  simp [runFrom, this]
 
 /-- more fuel does not change a finished run -/
 theorem runFrom_mono {code} : ∀ {n pc stk r}, runFrom code n pc stk = r → r ≠ .error .exhausted →
@@ -96,19 +98,15 @@ theorem runFrom_mono {code} : ∀ {n pc stk r}, runFrom code n pc stk = r → r 
     obtain ⟨m', rfl⟩ : ∃ m', m = m' + 1 := ⟨m - 1, by omega⟩
     simp only [runFrom] at h ⊢
     split
-    · rename_i hp; simpa [hp] using h
-    · rename_i hp
-      simp only [hp, if_false] at h
+    · rename_i hc; simpa [hc] using h
+    · rename_i op hc
+      simp only [hc] at h
       split
-      · rename_i hc; simpa [hc] using h
-      · rename_i op hc
-        simp only [hc] at h
-        split
-        · rename_i pc' stk' hs
-          simp only [hs] at h
-          exact ih h hr m' (by omega)
-        · rename_i kd hs; simpa [hs] using h
-        · rename_i w hs; simpa [hs] using h
+      · rename_i pc' stk' hs
+        simp only [hs] at h
+        exact ih h hr m' (by omega)
+      · rename_i kd hs; simpa [hs] using h
+      · rename_i w hs; simpa [hs] using h
 
 /-! ## placement of code -/
 
